@@ -106,8 +106,8 @@ pub mod x86 {
 }
 
 #[cfg(any(vcfg_x86std, vcfg_x86none, vcfg_x86alloc, vcfg_x86avx2, vcfg_x86rel))]
-inst!(disp_g1_0_5, [props=C09+C01+C02+C07 xprops=C14 tier=quick cfg=x86std t=1800 role=dispatcher-symbolic-cpu uw=byte_by_byte:34;all::memchr::One::count_raw.0:67;all::memchr:10;find_raw.0:3;find_raw.1:4;count_raw.0:3;count_raw.1:4], 7,
-    x86::dispatcher::<0, 5>(1));
+inst!(disp_g1_1_5, [props=C09+C01+C02+C07 xprops=C14 tier=quick cfg=x86std t=1800 role=dispatcher-symbolic-cpu uw=byte_by_byte:34;all::memchr::One::count_raw.0:67;all::memchr:10;find_raw.0:3;find_raw.1:4;count_raw.0:3;count_raw.1:4], 7,
+    x86::dispatcher::<1, 5>(1));
 #[cfg(any(vcfg_x86std, vcfg_x86none, vcfg_x86alloc, vcfg_x86avx2, vcfg_x86rel))]
 inst!(disp_g1_7_15, [props=C09+C01+C02+C07 xprops=C14 tier=quick cfg=x86std t=1800 role=dispatcher-symbolic-cpu uw=byte_by_byte:34;all::memchr::One::count_raw.0:67;all::memchr:10;find_raw.0:3;find_raw.1:4;count_raw.0:3;count_raw.1:4], 17,
     x86::dispatcher::<7, 15>(1));
@@ -148,8 +148,8 @@ inst!(disp_g1_63_64, [props=C09+C01+C02+C07 xprops=C14 tier=thorough cfg=x86std 
 inst!(disp_g1_64_65, [props=C09+C01+C02+C07 xprops=C14 tier=thorough cfg=x86std t=1800 role=dispatcher-symbolic-cpu uw=byte_by_byte:34;all::memchr::One::count_raw.0:67;all::memchr:10;find_raw.0:3;find_raw.1:4;count_raw.0:3;count_raw.1:4], 67,
     x86::dispatcher::<64, 65>(1));
 #[cfg(any(vcfg_x86std, vcfg_x86none, vcfg_x86alloc, vcfg_x86avx2, vcfg_x86rel))]
-inst!(disp_g2_0_5, [props=C09+C01+C02 xprops=C14 tier=quick cfg=x86std t=1800 role=dispatcher-symbolic-cpu uw=byte_by_byte:34;all::memchr::One::count_raw.0:67;all::memchr:10;find_raw.0:3;find_raw.1:4;count_raw.0:3;count_raw.1:4], 3,
-    x86::dispatcher::<0, 5>(2));
+inst!(disp_g2_1_5, [props=C09+C01+C02 xprops=C14 tier=quick cfg=x86std t=1800 role=dispatcher-symbolic-cpu uw=byte_by_byte:34;all::memchr::One::count_raw.0:67;all::memchr:10;find_raw.0:3;find_raw.1:4;count_raw.0:3;count_raw.1:4], 3,
+    x86::dispatcher::<1, 5>(2));
 #[cfg(any(vcfg_x86std, vcfg_x86none, vcfg_x86alloc, vcfg_x86avx2, vcfg_x86rel))]
 inst!(disp_g2_7_15, [props=C09+C01+C02 xprops=C14 tier=quick cfg=x86std t=1800 role=dispatcher-symbolic-cpu uw=byte_by_byte:34;all::memchr::One::count_raw.0:67;all::memchr:10;find_raw.0:3;find_raw.1:4;count_raw.0:3;count_raw.1:4], 3,
     x86::dispatcher::<7, 15>(2));
@@ -190,8 +190,8 @@ inst!(disp_g2_63_64, [props=C09+C01+C02 xprops=C14 tier=thorough cfg=x86std t=18
 inst!(disp_g2_64_65, [props=C09+C01+C02 xprops=C14 tier=thorough cfg=x86std t=1800 role=dispatcher-symbolic-cpu uw=byte_by_byte:34;all::memchr::One::count_raw.0:67;all::memchr:10;find_raw.0:3;find_raw.1:4;count_raw.0:3;count_raw.1:4], 3,
     x86::dispatcher::<64, 65>(2));
 #[cfg(any(vcfg_x86std, vcfg_x86none, vcfg_x86alloc, vcfg_x86avx2, vcfg_x86rel))]
-inst!(disp_g3_0_5, [props=C09+C01+C02 xprops=C14 tier=quick cfg=x86std t=1800 role=dispatcher-symbolic-cpu uw=byte_by_byte:34;all::memchr::One::count_raw.0:67;all::memchr:10;find_raw.0:3;find_raw.1:4;count_raw.0:3;count_raw.1:4], 3,
-    x86::dispatcher::<0, 5>(3));
+inst!(disp_g3_1_5, [props=C09+C01+C02 xprops=C14 tier=quick cfg=x86std t=1800 role=dispatcher-symbolic-cpu uw=byte_by_byte:34;all::memchr::One::count_raw.0:67;all::memchr:10;find_raw.0:3;find_raw.1:4;count_raw.0:3;count_raw.1:4], 3,
+    x86::dispatcher::<1, 5>(3));
 #[cfg(any(vcfg_x86std, vcfg_x86none, vcfg_x86alloc, vcfg_x86avx2, vcfg_x86rel))]
 inst!(disp_g3_7_15, [props=C09+C01+C02 xprops=C14 tier=quick cfg=x86std t=1800 role=dispatcher-symbolic-cpu uw=byte_by_byte:34;all::memchr::One::count_raw.0:67;all::memchr:10;find_raw.0:3;find_raw.1:4;count_raw.0:3;count_raw.1:4], 3,
     x86::dispatcher::<7, 15>(3));
@@ -406,5 +406,5 @@ inst!(mx_top_12, [props=C09 xprops=C14 tier=quick cfg=x86none+x86alloc+x86avx2 t
 inst!(mx_top_34, [props=C09 xprops=C14 tier=quick cfg=x86none+x86alloc+x86avx2 t=1800 role=config-matrix-bytes uw=byte_by_byte:34;all::memchr::One::count_raw.0:67;all::memchr:10;find_raw.0:3;find_raw.1:4;count_raw.0:3;count_raw.1:4;oracle::count:40], 3,
     matrix::top::<34>());
 #[cfg(any(vcfg_x86none, vcfg_x86alloc, vcfg_x86avx2))]
-inst!(mx_sub_n2, [props=C09 xprops=C14 tier=quick cfg=x86none+x86alloc+x86avx2 t=1800 role=config-matrix-substring uw=find_in_chunk:34;is_equal_raw:3;packedpair::Finder:3;rabinkarp::Finder::find_raw:22;rabinkarp::FinderRev::rfind_raw:22;Hash:5;rabinkarp::Finder::new:5;rabinkarp::FinderRev::new:5;with_ranker:5;oracle:4], 10,
+inst!(mx_sub_n2, [props=C09 xprops=C14 tier=quick cfg=x86none+x86alloc+x86avx2 t=1800 role=config-matrix-substring uw=@RK;@TWNEW;@TWOFF;with_ranker:6;oracle:6;@PP32], 3,
     matrix::substring::<2, 15>(0, 15));
